@@ -21,7 +21,7 @@ import common, core
 from common import Work
 
 KCLS = {"comment": 0, "string literal": 1, "byte literal": 2, "numeric literal": 3, "end_of_file": 6}
-MODP = (1 << 61) - 1
+MASK = (1 << 30) - 1
 EXTERN_MSG = "@extern is only allowed in standard library modules"
 
 def cls_of(kind):
@@ -125,7 +125,7 @@ def sig(toks):
 
 def impl_sum(resp):
     h = 0
-    def mix(h, x): return (h * 1000003 + x + 7) % MODP
+    def mix(h, x): return (5 * h + x + 7) & MASK
     for t in resp["toks"]:
         h = mix(h, cls_of(t[0]))
         for x in t[2:8]:
@@ -184,7 +184,7 @@ def gen_trivia(rng):
     if k < 0.75:
         return b"/*" + gen_comment_text(rng, True) + b"*/", "block"
     if k < 0.85:
-        return b"/*" + gen_comment_text(rng, True) + b"/* inner */", "nested-looking"
+        return b"/*" + gen_comment_text(rng, True) + b" /* inner */", "nested-looking"
     parts = []
     for _ in range(rng.randint(2, 3)):
         c = rng.random()
@@ -393,18 +393,18 @@ def toplevel_fns(toks):
 
 def coq_cases(name, bases, cases, doc_cases):
     """bases: {key: bytes}; cases: [(id, basekey, g, t, checksum)]; doc_cases: [(id, bytes, starts, flags)]"""
-    v = ["From Coq Require Import ZArith List.", "From FV Require Import Models.Trivia Models.DocComment.",
-         "Import ListNotations.", "Open Scope Z_scope."]
+    v = ["From Coq Require Import ZArith List String.", "From FV Require Import Models.Trivia Models.DocComment.",
+         "Import ListNotations.", "Open Scope Z_scope.", "Open Scope string_scope."]
     for k, b in bases.items():
-        v.append("Definition s%d : list Z := %s." % (k, common.coq_bytes(b)))
+        v.append('Definition s%d : list Z := unhex "%s".' % (k, b.hex()))
     v.append("Definition cases : list (Z * list Z * nat * list Z * Z) := [")
-    v.append(";\n".join("(%d, s%d, %d%%nat, %s, %d)" % (i, k, g, common.coq_bytes(t) if t else "[]", h) for (i, k, g, t, h) in cases))
+    v.append(";\n".join("(%d, s%d, %d%%nat, %s, %d)" % (i, k, g, 'unhex "%s"' % t.hex() if t else "[]", h) for (i, k, g, t, h) in cases))
     v.append("].")
     v.append("Definition dcases : list (Z * list Z * list Z * list bool) := [")
-    v.append(";\n".join("(%d, %s, [%s], [%s])" % (i, common.coq_bytes(b), "; ".join(str(x) for x in st),
+    v.append(";\n".join("(%d, %s, [%s], [%s])" % (i, 'unhex "%s"' % b.hex(), "; ".join(str(x) for x in st),
                                                  "; ".join(common.coq_bool(x) for x in fl)) for (i, b, st, fl) in doc_cases))
     v.append("].")
-    v.append("Eval vm_compute in (bad_ids cases ++ doc_bad_ids dcases).")
+    v.append("Eval vm_compute in (List.app (bad_ids cases) (doc_bad_ids dcases)).")
     return common.coq_eval(name, "\n".join(v) + "\n")
 
 # ------------------------------------------------------------------ main
@@ -412,9 +412,11 @@ def coq_cases(name, bases, cases, doc_cases):
 def load_bases(run, work, n_gen):
     bases = []
     sm = os.path.join(common.REPO, "smoke_test")
-    for fn in sorted(os.listdir(sm)):
-        if fn.endswith(".fer"):
-            bases.append(("smoke:" + fn, open(os.path.join(sm, fn), "rb").read()))
+    fns = sorted(fn for fn in os.listdir(sm) if fn.endswith(".fer"))
+    if n_gen < 20:
+        fns = sorted(run.rng.sample(fns, min(8, len(fns))))      # quick tier: a seeded subset of the corpus
+    for fn in fns:
+        bases.append(("smoke:" + fn, open(os.path.join(sm, fn), "rb").read()))
     cdir = os.path.join(common.VERIF, "corpus", "C19")
     if os.path.isdir(cdir):
         for fn in sorted(os.listdir(cdir)):
@@ -432,6 +434,10 @@ def report(run, key, what, s, g, t, extra=None):
     rp.update(extra or {})
     return run.violation(key, what, rp)
 
+TRIVIA_RE = re.compile(rb"(?s)^(?:[ \t\n\r\x0c]+|//[^\n\r]*\r?\n|/\*(?:(?!\*/).)*\*/)*$")
+def is_trivia(t):
+    return TRIVIA_RE.match(t) is not None
+
 def shrink_insertion(s, g, t, fails):
     """shrink the inserted text (and keep the source): drop bytes of t while the oracle still fails"""
     cur = t
@@ -441,7 +447,7 @@ def shrink_insertion(s, g, t, fails):
         for i in range(len(cur)):
             c = cur[:i] + cur[i + 1:]
             try:
-                if c and fails(s, g, c):
+                if c and is_trivia(c) and fuse_gate(s, g, c) == c and fails(s, g, c):
                     cur = c; changed = True
                     break
             except Exception:
@@ -458,9 +464,9 @@ def main(run):
     work = Work()
     texts = Texts(work)
     quick = run.tier == "quick"
-    n_gen = 14 if quick else 120
-    n_mut = 2 if quick else 4
-    n_ins = 7 if quick else 14
+    n_gen = 8 if quick else 120
+    n_mut = 1 if quick else 4
+    n_ins = 5 if quick else 14
     run.rule = ("a case is (program text, byte offset of a token gap, inserted trivia); distinct = hash of the triple; "
                 "non-trivial = the insertion is not empty and the program has at least 3 tokens")
     run.trusted += ["hooks/lexgaps/main.go (calls lexer.New(...).Tokenize and the -t pipeline, prints tokens/diagnostics as structure)",
@@ -515,6 +521,7 @@ def main(run):
                 continue
             t, tc = gen_trivia(run.rng)
             t = fuse_gate(s, g, quirk_gate(s, g, t))
+            assert is_trivia(t), t
             cases.append(dict(name=name, kind=kind, s=s, g=g, t=t, tcls=tc))
     news = [c["s"][:c["g"]] + c["t"] + c["s"][c["g"]:] for c in cases]
     lexn = run_hook_on(texts, news, "lex")
@@ -570,7 +577,7 @@ def main(run):
             res2 = oracle(s, g, t2) or res
             key = "badchar-pos" if "unrecognized character" in res2[1] else "%s:%s:%d:%s" % (kind, c["name"], g, t2.hex())
             report(run, key, "inserting %r at byte %d of %s: %s" % (t2.decode("utf8", "replace"), g, c["name"], res2[1]), s, g, t2,
-                   {"oracle": kind})
+                   {"oracle": kind, "inserted_before_shrinking": t.decode("utf8", "replace"), "first_failure": w})
 
     _tm(run, "oracles")
     # ---------------- (C) native output on a sample of accepted programs
